@@ -172,14 +172,18 @@ def main():
                 totals.setdefault(ent["id"], []).append(sum(natoms(p) for p in ent["mcs_results"]))
                 if "timeout" in ent.get("issue", "").lower():
                     timing[ent["id"]] = True
-        searcher.find(rows)
+        crashed = ""
+        try:
+            searcher.find(rows)
+        except Exception as ex:      # an exception of the call under test is an observation
+            crashed = repr(ex)[:200]
         for r in rows:
             has_key = "mcs" in r
             m = r.get("mcs")
             e = {"ev": "search", "batch": b, "row": r["id"], "reaction": r["reaction"], "solved_before": r["solved"],
                  "has_key": has_key, "has_mcs": m is not None and has_key, "totals": totals.get(r["id"], [0]),
                  "timing": bool(timing.get(r["id"], False)), "id_matches": True, "bag_ok": True, "nmol": 0, "npat": 0,
-                 "contained": [], "sel_total": 0, "issue": r.get("issue", "")}
+                 "contained": [], "sel_total": 0, "issue": r.get("issue", ""), "crashed": crashed}
             if e["has_mcs"]:
                 side = r["products"] if r["carbon_balance_check"] == "reactants" else r["reactants"]
                 want = oracle.side_components(side)
